@@ -213,10 +213,8 @@ func DuplicateWithIndex[T comparable](slice []T) map[T]int {
 		if _, ok := kvMap[v]; !ok {
 			// Create a slice with a dimension of 2, which first element contains the position (the index)
 			// of the first found duplicate value and the second indicates the number of appearance.
-			kvMap[v] = make([]int, 2)
 			count = 1
-			kvMap[v][0] = idx
-			kvMap[v][1] = count
+			kvMap[v] = []int{idx, count}
 		} else {
 			count++
 			kvMap[v][1] = count
